@@ -104,6 +104,7 @@ def _k23_job(job):
                     if names[i] in pos and names[j] in pos and pos[names[j]] > pos[names[i]]:
                         part.add('C06/K3/base-after-alias/' + tag, 'after normalisation the alias %s precedes its base type %s (order %s, files %s): later resolution depends on the input order' %
                                  (names[i], names[j], list(perm), list(split) if split else None), wit, ('order', (files, cyc)))
+        if not part.findings and len(part.validate) < 1: part.validate.append(('order', (files, cyc)))
         if len(part.samples) < 1: part.samples.append({'case': tag, 'edges': edges, 'verdict': code or 'Ok'})
     M.explore(entry, on_path)
     part.queries += M.stats['smt']; part.encoded = set(M.encoded); part.models = set(M.models_used)
